@@ -82,6 +82,58 @@ def forced_programs():
     return out
 
 
+class CountingMapping(iteration.RowMapping):
+    """A mapping-backed leaf payload (rows keyed by their unique key) that counts how often it is read."""
+
+    def __init__(self, unique_key, rows):
+        super().__init__(unique_key, rows)
+        self.iterations = 0
+
+    def __iter__(self):
+        self.iterations += 1
+        return super().__iter__()
+
+
+def mapping_leaf_checks():
+    """Lazy operations (projection keeping / dropping the key, selection, calculation, window, chain, and stacks of them)
+    over a leaf whose payload is a RowMapping: execute() reads nothing, each full iteration of the result reads the leaf at
+    most once, and both iterations give the same rows.  Judged in Python (the model's leaves are row sequences)."""
+    import lsst.daf.relation as dr
+    a, b, c = enc.K(1), enc.K(2), enc.N(1)
+    eng = iteration.Engine(name="ml18")
+    E = dr.ColumnExpression
+    bad, n = [], 0
+    shapes = [("projection keeping the key", lambda r: r.with_only_columns({a, b})),
+              ("projection keeping the key and a value", lambda r: r.with_only_columns({a, b, c})),
+              ("projection dropping part of the key", lambda r: r.with_only_columns({a, c})),
+              ("selection", lambda r: r.with_rows_satisfying(E.reference(a).gt(E.literal(0)))),
+              ("calculation", lambda r: r.with_calculated_column(enc.N(2), E.reference(a).method("__neg__"))),
+              ("window", lambda r: r[0:2]),
+              ("window of a selection of a projection keeping the key", lambda r: r.with_only_columns({a, b}).with_rows_satisfying(E.reference(a).gt(E.literal(0)))[0:2]),
+              ("projection keeping the key of a selection", lambda r: r.with_rows_satisfying(E.reference(a).gt(E.literal(0))).with_only_columns({a, b})),
+              ("chain with itself of a projection keeping the key", lambda r: r.with_only_columns({a, b}).chain(r.with_only_columns({a, b})))]
+    for what, f in shapes:
+        payload = CountingMapping((a, b), {(i, 2 * i): {a: i, b: 2 * i, c: 7 + i} for i in range(4)})
+        leaf = eng.make_leaf({a, b, c}, payload=payload, name="ml18L")
+        n += 1
+        try:
+            rel = f(leaf)
+            result = eng.execute(rel)
+            at_execute = payload.iterations
+            rows1 = [dict(r) for r in result]
+            after1 = payload.iterations
+            rows2 = [dict(r) for r in result]
+            after2 = payload.iterations
+        except Exception as e:  # noqa: BLE001
+            bad.append({"operation": what, "problem": f"raised {type(e).__name__}: {e}"})
+            continue
+        if at_execute != 0 or after1 > 2 or after2 > 4 or rows1 != rows2 or (what.startswith("chain") is False and (after1 > 1 or after2 > 2)):
+            bad.append({"operation": what, "tree": str(rel), "leaf_reads_during_execute": at_execute, "after_first_iteration": after1,
+                        "after_second_iteration": after2, "same_rows": rows1 == rows2,
+                        "problem": "a tree of lazy operations over a mapping-backed leaf read the leaf at execute() time, or more than once per iteration"})
+    return n, bad
+
+
 def one_case(rng, lazy_only, p=None):
     weights = [3, 0, 3, 3, 3, 0] if lazy_only else [2, 3, 2, 2, 3, 3]
     if p is None:
@@ -123,14 +175,19 @@ def run(ctx):
     bits = {1: "built tree differs from the model's", 2: "iteration counts exceed the cost model (an upper bound)",
             4: "laziness violated: a lazy tree iterated a leaf at execute time, a leaf occurrence was iterated more than once, "
                "or repeated iteration differed"}
-    summ = core.judge(ctx, cases, HDR, "check_lazy", bits=bits)
-    core.conclude_s1(ctx, s1, summ["spec_failures"] > 0 or bool(ctx.violations))
+    found = False
+    n_map, map_bad = mapping_leaf_checks()
+    for b in map_bad[:2]:
+        found |= ctx.failing_case({"kind": "mapping-backed-leaf-read-eagerly", "case": b}, None)
+    summ = core.judge(ctx, cases, HDR, "check_lazy", bits=bits, found_elsewhere=found)
+    core.conclude_s1(ctx, s1, found or summ["spec_failures"] > 0 or bool(ctx.violations))
     ctx.coverage.update({
         "evaluations": len(cases), "distinct_nontrivial": len({c["key"] for c in cases if c["nontrivial"]}),
         "rule": "iteration-engine programs over leaves whose payloads count started iterations; half of the programs use only "
                 "the lazy operations (calculation, projection, selection, slice, chain), half mix in sort, deduplication, "
                 "materialization and transfers; counts are taken during execute() and during two full iterations of the result",
         "lazy_only_programs": sum(1 for c in cases if c["lazy_only"]),
+        "mapping_backed_leaf_shapes_judged_in_python": n_map,
         "traces_validated_against_impl": summ["evaluated"], "judgement": summ,
         "samples": [cases[0]["json"], cases[1]["json"]],
     })
